@@ -60,7 +60,49 @@ func inFmt2(string) string { return "yaml" }
 
 // evalDocFmt hands the JSON text of doc to the named decoder ("yaml" or "json").
 func evalDocFmt(expr string, doc *ref.V, inFmt string) (*ref.V, []*ref.V, error) {
-	out, err, pan := yqx.Eval(expr, doc.JSON()+"\n", inFmt, "json")
+	if inFmt == "yaml-block" {
+		return evalTextFmt(expr, blockYAML(doc), "yaml")
+	}
+	return evalTextFmt(expr, doc.JSON()+"\n", inFmt)
+}
+
+// blockYAML writes the value as block-style YAML: block mappings and sequences, scalars and keys as in JSON (double
+// quoted strings), empty collections in flow style. The node tree yq builds from it carries no flow style anywhere.
+func blockYAML(v *ref.V) string {
+	var sb strings.Builder
+	var w func(v *ref.V, ind int, inline bool)
+	w = func(v *ref.V, ind int, inline bool) {
+		pad := strings.Repeat("  ", ind)
+		switch {
+		case v.K == ref.Map && len(v.M) > 0:
+			if inline {
+				sb.WriteString("\n")
+			}
+			for _, kv := range v.M {
+				sb.WriteString(pad + ref.QuoteJSON(kv.K) + ":")
+				w(kv.V, ind+1, true)
+			}
+		case v.K == ref.Seq && len(v.A) > 0:
+			if inline {
+				sb.WriteString("\n")
+			}
+			for _, x := range v.A {
+				sb.WriteString(pad + "-")
+				w(x, ind+1, true)
+			}
+		default:
+			if inline {
+				sb.WriteString(" ")
+			}
+			sb.WriteString(v.JSON() + "\n")
+		}
+	}
+	w(v, 0, false)
+	return sb.String()
+}
+
+func evalTextFmt(expr string, text string, inFmt string) (*ref.V, []*ref.V, error) {
+	out, err, pan := yqx.Eval(expr, text, inFmt, "json")
 	if pan != nil {
 		return nil, nil, fmt.Errorf("panic: %s", pan.Sig())
 	}
